@@ -2374,6 +2374,34 @@ theorem step_inv {cfg : Cfg} {st : St} {fib : Fib} {refs : Refs} {unr : List Add
     exact wrap (inv_trav h (undeferDest cfg f) _
       (fun q ps hs hf => undeferDest_local cfg hd st.deferring f q hs hf)
       (fun q => by simp [undeferDest]) rfl h.inval) rfl
+  | insl src p pid nh att =>
+    by_cases hl : limitAdmits (lookupDest st.dests p) (sidOf st src) = true
+    · have e : step cfg st (.insl src p pid nh att) = insertRoute cfg st src p pid nh att := by simp [step, hl]
+      rw [e]
+      exact wrap (inv_setDest h p (insertDest_local cfg hd _ st.policy st.invalid p src (sidOf st src) pid nh att st.next
+        (h.sorted_lookup p) (h.flags_lookup p) h.inval) _ rfl rfl rfl) rfl
+    · have e : step cfg st (.insl src p pid nh att) = (st, []) := by simp [step, hl]
+      rw [e]
+      exact ⟨refs, by simp [nhtReqs, refReplay], by simpa [fibReqs, fibReplay, report] using h, rfl⟩
+  | gdown k m =>
+    have hk : k < 100 := wf_peer_lt hc (by simp only [Op.wf, Bool.and_eq_true, decide_eq_true_eq] at hop; exact hop.1)
+    exact wrap (inv_trav h (gdownDest cfg st.deferring k m) _
+      (fun q ps hs hf => by
+        unfold gdownDest
+        split
+        · exact restaleDest_local cfg hd st.deferring k q hs hf
+        · exact dropDest_local cfg hd st.deferring _ q (fun x hx => fromAddr_isPeer hk hx) hs hf)
+      (fun q => by unfold gdownDest; split <;> simp [restaleDest, restalePaths, dropDest, dropPaths]) rfl h.inval) rfl
+  | purgef k f =>
+    have hk : k < 100 := wf_peer_lt hc (by simp only [Op.wf, Bool.and_eq_true, decide_eq_true_eq] at hop; exact hop.1)
+    exact wrap (inv_trav h (purgefDest cfg st.deferring k f) _
+      (fun q ps hs hf => by
+        unfold purgefDest
+        split
+        · exact dropDest_local cfg hd st.deferring _ q
+            (fun x hx => fromAddr_isPeer hk (by simp only [Bool.and_eq_true] at hx; exact hx.1)) hs hf
+        · exact LocalOK.refl cfg _ q hs hf)
+      (fun q => by unfold purgefDest; split <;> simp [dropDest, dropPaths]) rfl h.inval) rfl
 
 theorem inv_init (cfg : Cfg) : Inv cfg (St.init cfg) [] [] [] := by
   refine ⟨by simp [St.init, keys], by simp [St.init], by simp [St.init], ?_, by simp [St.init, refGet, usesAll], by simp [St.init], by simp⟩
